@@ -750,12 +750,6 @@ func TestVerifC21(t *testing.T) {
 			continue // budget: the most expensive window-3 configuration is left to the thorough tier
 		}
 		d := vx.Pick(r, 4, 5)
-		if c.Window == 3 {
-			// budget: window 4 admits a superset of the out-of-order timestamps of window 3 and is
-			// searched one operation deeper in the thorough tier; window 3 adds the boundary
-			// "newest-3 rejected, newest-2 admitted" and stays at depth 4 in both tiers.
-			d = 4
-		}
 		depths[c.Name] = d
 		t0 := time.Now()
 		memo := &c21Memo{}
@@ -770,7 +764,7 @@ func TestVerifC21(t *testing.T) {
 	r.Set("depth", depth)
 	r.Set("operations", len(c21OpNames))
 	r.Set("outcome_classes", outcomes)
-	r.Set("rule", fmt.Sprintf("BFS with de-duplication on (reference ring, complete physical ring layout) over all histories of <=%v operations from %d (32 adds: series A/B x ts 1..4 x value 1/2 x labels x/y; 2 adds with a 129-rune label set; 5 resizes 0..4) for capacity 1..3 x out-of-order window 0/2/3/4 (none, one, two, all older timestamps of the alphabet admitted; window 3: depth 4, capacity 3 only in the thorough tier); after every transition: verdicts and list/index integrity; retained ring and 27 Selects once per distinct (model, physical layout) state", depth, len(c21OpNames)))
+	r.Set("rule", fmt.Sprintf("BFS with de-duplication on (reference ring, complete physical ring layout) over all histories of <=%v operations from %d (32 adds: series A/B x ts 1..4 x value 1/2 x labels x/y; 2 adds with a 129-rune label set; 5 resizes 0..4) for capacity 1..3 x out-of-order window 0/2/3/4 (none, one, two, all older timestamps of the alphabet admitted; window 3 x capacity 3 only in the thorough tier); after every transition: verdicts and list/index integrity; retained ring and 27 Selects once per distinct (model, physical layout) state", depth, len(c21OpNames)))
 	r.Assume("the reference ring encodes the rules documented in tsdb/exemplar.go comments (duplicate of newest ignored, window relative to the newest retained exemplar, equal-timestamp ordering by value then label hash, out-of-order exemplar with an already retained timestamp ignored)")
 	r.Assume("Head appender paths (head_append.go) that call ValidateExemplar/AddExemplar are not driven; the storage is driven directly")
 	for _, o := range []string{"stored", "stored-out-of-order", "ignored-duplicate-of-newest", "ignored-out-of-order-same-ts",
